@@ -200,6 +200,7 @@ deriving Repr, DecidableEq, Inhabited
 
 inductive Mutation where
   | flip | truncate | delete
+  | swapped        -- content replaced by the authentic content of another file of the same type
   | none           -- the unmutated repository (control case)
 deriving Repr, DecidableEq, Inhabited
 
@@ -247,6 +248,7 @@ def expectRestore (k : FileKind) (m : Mutation) (self : Bool) : RExp :=
   | .config, _ => .fail
   | .index, .flip => .fail           -- LoadIndex fails (hash of the file differs from its name)
   | .index, .truncate => .fail
+  | .index, .swapped => .fail
   | .index, .delete => .failOrSame
   | .snapshot, _ => if self then .fail else .same
   | .pack, _ => .failOrSame          -- fails iff a needed blob lies in the damaged region
